@@ -145,7 +145,11 @@ class HistoryRun:
                         rq["cid"] = str(self.sess_texts[rq["session"]].index(rq["text"]))      # the candidate with this text, wherever the server lists it
                     st, r = srv_.call("UpdateFrequency", {"session_id": sid if sid is not None else "no-such-session", "candidate_id": rq["cid"]})
                     ok, dmp = srv_.quiesce()
-                    now = max([f[3] for f in (dmp or {}).get("frequencies", [])] + [0]) if isinstance(dmp, dict) else 0
+                    # the time stamp this confirmation used = the stamp of the count it raised (planted counts may carry stamps from the future)
+                    prevf = {(json.dumps(f[0], sort_keys=True), f[1]): (f[2], f[3]) for f in ((self.dumps[-1] or {}).get("frequencies", []) if self.dumps else
+                                                                                          [[c, w, n, t] for c, w, n, t in self.init_freq_abs])}
+                    raised = [f[3] for f in (dmp or {}).get("frequencies", []) if isinstance(dmp, dict) and prevf.get((json.dumps(f[0], sort_keys=True), f[1]), (0, None))[0] < f[2]]
+                    now = raised[0] if raised else int(time.time() * 1000)
                     self.events.append(({"t": "confirm", "sid": rq["session"] if sid is not None and rq["session"] is not None else None, "cid": rq["cid"], "now": now,
                                          "applied": True}, {} if st == "ok" else None))
                     if st != "ok":
@@ -160,6 +164,16 @@ class HistoryRun:
                         self.problems.append(("registration is neither answered nor its connection closed", {"request": rq}))
                     if not ok:
                         self.problems.append(("a registered word is never applied to the dictionary (updater dead?)", {"request": rq, "dump": dmp}))
+                elif kind == "wait_save":
+                    # let a periodic save happen here (not a model event: saving does not change the state)
+                    st, d0 = srv_.dump()
+                    target = (d0 or {}).get("saves_done", 0) + 1 if st == "ok" else 1
+                    t0 = time.time()
+                    while time.time() - t0 < 8:
+                        st, dd = srv_.dump()
+                        if st == "ok" and dd["saves_done"] >= target:
+                            break
+                        time.sleep(0.05)
                 elif kind == "malformed":
                     st, r = srv_.call(rq["method"], rq["params"])
                     if st == "timeout":
@@ -189,7 +203,7 @@ class HistoryRun:
                 if not srv_.alive():
                     self.problems.append(("the server process died", {"request": rq, "log": srv_.logtext()[-800:]}))
                     break
-                if self.dump_each:
+                if self.dump_each and kind != "wait_save":
                     st_, dd_ = srv_.dump()
                     self.dumps.append(dd_ if st_ == "ok" else None)
             if srv_.alive():
